@@ -12,6 +12,7 @@ CONSTANTS
   L2PerPrune = 1
   AssumeFinality = TRUE
   AssumeSlowL1 = TRUE
+  FixHashChecks = FALSE
 SPECIFICATION Spec
 INVARIANTS TypeOK LocalIsChain P1_DurableFloor P1_MemFloor P1_KeepMax P2_NeverStuck P2_NoPruneError P2_HeadRetained
   P3_RetainedPresent P3_Contiguous P3_StateReadable P3_HeadersLag P4_ViewBase P4_HeadStateServable
